@@ -117,6 +117,10 @@ class Doc:
         return self.tok(self.tid[h]) if h in self.tid else f"{self.name}?{h}"
 
     def commit(self, text):
+        if text == self.text:
+            # an edit that leaves the text as it was: a new version of the document, the same text (the same text id)
+            self.version += 1
+            return
         self.text = text
         self.hist.append(text)
         self.tid[fnv(text)] = len(self.hist) - 1
@@ -128,6 +132,21 @@ def make_edit(rnd, doc, n):
     text = doc.text
     marker = rnd.choice([f"  let v{n} = {n}\n", f"  let = {n}\n", f"// edit {n} é💣\n", f"// edit {n}\r\n", f"  let w{n} = fn0({n}, limit)\n"])
     changes = []
+    if n > 1 and rnd.random() < 0.1:
+        # an edit whose net effect on the text is nil (the same text sent again, a selection replaced by itself, an insertion
+        # taken back in the same notification): for the server it is a change like any other - version, analysis inputs,
+        # diagnostics
+        k = rnd.randrange(3)
+        ls = line_starts(text)
+        if k == 0 or len(ls) < 3:
+            return [{"text": text}], text
+        i = rnd.randrange(len(ls) - 1)
+        a, b = ls[i], ls[i + 1]
+        if k == 1:
+            return [{"range": {"start": pos_of(text, a), "end": pos_of(text, b)}, "text": text[a:b]}], text
+        mid = text[:a] + marker + text[a:]
+        return [{"range": {"start": pos_of(text, a), "end": pos_of(text, a)}, "text": marker},
+                {"range": {"start": pos_of(mid, a), "end": pos_of(mid, a + len(marker))}, "text": ""}], text
     if rnd.random() < 0.12:
         new = text.replace("\r", "") + marker if rnd.random() < 0.5 else gen_module(rnd, rnd.randrange(20, 50)) + marker
         return [{"text": new}], new
